@@ -22,6 +22,7 @@ for id in $ids; do
     case $rc in 1) r="caught ($n violations)";; 0) r="MISSED";; *) r="trouble (exit $rc)";; esac
     echo "$id check=$c $r wall=$(( $(date +%s)-t0 ))s"
   done
+  altdir="build/alt-$(python3 -c "import hashlib,os,sys;print(hashlib.sha1(os.path.realpath(sys.argv[1]).encode()).hexdigest()[:8])" $wt)"
   git -C /repo worktree remove --force $wt >/dev/null 2>&1; rm -rf $wt
-  rm -rf build/alt-*
+  rm -rf "$altdir"
 done
